@@ -113,3 +113,114 @@ VARIANTS["C03"] = [
     R("fast-index-loop", GF, "        for k_list in stubs:\n            random.shuffle(k_list)", "        for i in range(len(stubs)):\n            random.shuffle(stubs[i])"),
     R("fast-renamed-var", GF, "        for k_list in stubs:\n            random.shuffle(k_list)", "        for stub_list in stubs:\n            random.shuffle(stub_list)"),
 ]
+
+# ------------------------------------------------------------------------------------------- C01
+GN = "gcmpy/gcm_algorithm/gcm_algorithm_network.py"
+GFA = "gcmpy/gcm_algorithm/gcm_algorithm_factory.py"
+GM = "gcmpy/gcm_algorithm/gcm_algorithm_main.py"
+MCL = "gcmpy/motif_generators/clique_motif.py"
+MCY = "gcmpy/motif_generators/cycle_motif.py"
+MDI = "gcmpy/motif_generators/diamond_motif.py"
+VARIANTS["C01"] = [
+    M("fast-grouper-sliced", GF, "grouper(k_list, self._motif_sizes[k])", "grouper(k_list[1:], self._motif_sizes[k])", "C01.3"),
+    M("fast-grouper-truncate", GF, "grouper(k_list, self._motif_sizes[k])", "grouper(k_list, self._motif_sizes[k], truncate=True)", "C01.3"),
+    M("fast-grouper-fill", GF, "grouper(k_list, self._motif_sizes[k])", "grouper(k_list, self._motif_sizes[k], fillvalue=0)", "C01.3"),
+    M("fast-size-index-0", GF, "self._motif_sizes[k])", "self._motif_sizes[0])", "C01.4"),
+    M("fast-builder-index", GF, "self._build_functions[k](", "self._build_functions[k - 1](", "C01.4"),
+    M("fast-enumerate-from-1", GF, "for r in map(enumerate, zip(*jds))", "for r in map(lambda c: enumerate(c, 1), zip(*jds))", "C01.1"),
+    M("fast-consume-sliced", GF, "for k, k_list in enumerate(stubs):", "for k, k_list in enumerate(stubs[:-1]):", "C01.3"),
+    M("fast-jds-sorted", GF, "EdgeList.joint_degrees = jds", "EdgeList.joint_degrees = sorted(jds)", "C01.6"),
+    M("fast-jds-mutated", GF, "EdgeList.joint_degrees = jds", "EdgeList.joint_degrees = jds\n        jds.sort()", "C01.6"),
+    M("fast-chunk-sliced", GF, "self._build_functions[k](list(vertices))", "self._build_functions[k](list(vertices)[1:])", "C01.5"),
+    M("fast-edges-sliced", GF, "EdgeList.edge_list.extend(es)", "EdgeList.edge_list.extend(es[:-1])", "C01.5"),
+    M("fast-stub-pop", GF, "        gen = self.infinite_sequence()\n", "        gen = self.infinite_sequence()\n        stubs[0].pop()\n", "C01.2"),
+    M("fast-continue-first", GF, "            for vertices in grouper(", "            if k == 0:\n                continue\n            for vertices in grouper(", ""),
+    M("network-swapped-keys", GN, "params[GCMAlgorithmNames.MOTIF_SIZES] = self._motif_sizes\n        params[GCMAlgorithmNames.BUILD_FUNCTIONS] = self._build_functions",
+      "params[GCMAlgorithmNames.MOTIF_SIZES] = self._build_functions\n        params[GCMAlgorithmNames.BUILD_FUNCTIONS] = self._motif_sizes", "C01.7"),
+    M("network-jds-reversed", GN, ".random_clustered_graph(jds)", ".random_clustered_graph(jds[::-1])", "C01.7"),
+    M("factory-network-is-fast", GFA, "return GCMAlgorithmNetwork(params)", "return GCMAlgorithmFast(params)", "C01.8"),
+    M("factory-arm-dropped", GFA, "        elif type == GCMAlgorithmTypes.MOTIFS:\n            return GCMAlgorithmCustomMotifs(params)\n", "", "C01.8"),
+    M("custom-partition-step", GC, "range(0, len(lst), n)", "range(0, len(lst), n + 1)", "C01.3"),
+    M("custom-partition-start", GC, "range(0, len(lst), n)", "range(n, len(lst), n)", "C01.3"),
+    M("custom-partition-width", GC, "lst[i : i + n]", "lst[i : i + n - 1]", "C01.3"),
+    M("custom-size-wrong-index", GC, "self.partition(k_list, self._motif_sizes[i])", "self.partition(k_list, self._motif_sizes[0])", "C01.4"),
+    M("custom-count-wrong-size", GC, "num_motifs = (0.0 + len(stubs[kk])) / self._motif_sizes[kk]", "num_motifs = (0.0 + len(stubs[kk])) / self._motif_sizes[j]", "C01.3"),
+    M("custom-count-minus-one", GC, "for k in range(int(num_motifs)):", "for k in range(int(num_motifs) - 1):", "C01.3"),
+    M("custom-orbit-sliced", GC, "for index in motif_indexes:", "for index in motif_indexes[:1]:", "C01.3"),
+    M("custom-pop-wrong-partition", GC, "partitions[index].pop()", "partitions[kk].pop()", "C01.4"),
+    M("custom-builder-index", GC, "self._build_functions[j](vertices)", "self._build_functions[0](vertices)", "C01.4"),
+    M("custom-names-index", GC, "EdgeList.topologies.extend(self._edge_names[j]())", "EdgeList.topologies.extend(self._edge_names[kk]())", "C01.4"),
+    M("custom-jds-reversed", GC, "EdgeList.joint_degrees = jds", "EdgeList.joint_degrees = list(reversed(jds))", "C01.6"),
+    M("clique-triples", MCL, "combinations(vertices, 2)", "combinations(vertices, 3)", "C01.9"),
+    M("clique-sliced", MCL, "combinations(vertices, 2)", "combinations(vertices[1:], 2)", "C01.9"),
+    M("cycle-closing-wrong", MCY, "(vertices[0], vertices[-1])", "(vertices[0], vertices[1])", "C01.9"),
+    M("diamond-chord-wrong", MDI, "edges.append((n1, n3))", "edges.append((n1, n2))", "C01.9"),
+    R("fast-jds-copy", GF, "EdgeList.joint_degrees = jds", "EdgeList.joint_degrees = list(jds)"),
+    R("fast-size-temp", GF, "            for vertices in grouper(k_list, self._motif_sizes[k]):", "            size = self._motif_sizes[k]\n            for vertices in grouper(k_list, size):"),
+    R("fast-nested-stub-construction", GF, "        stubs = [\n            list(chain.from_iterable(starmap(repeat, r)))\n            for r in map(enumerate, zip(*jds))\n        ]",
+      "        stubs = [[v for v, d in enumerate(col) for _ in range(d)] for col in zip(*jds)]"),
+    R("fast-no-list-wrapper", GF, "self._build_functions[k](list(vertices))", "self._build_functions[k](vertices)"),
+    R("custom-count-floordiv", GC, "num_motifs = (0.0 + len(stubs[kk])) / self._motif_sizes[kk]\n            for k in range(int(num_motifs)):",
+      "num_motifs = len(stubs[kk]) // self._motif_sizes[kk]\n            for k in range(num_motifs):"),
+    R("network-dict-literal", GN, "        params = {}\n        params[GCMAlgorithmNames.MOTIF_SIZES] = self._motif_sizes\n        params[GCMAlgorithmNames.BUILD_FUNCTIONS] = self._build_functions\n        params[GCMAlgorithmNames.EDGE_NAMES] = self._edge_names\n",
+      "        params = {\n            GCMAlgorithmNames.MOTIF_SIZES: self._motif_sizes,\n            GCMAlgorithmNames.BUILD_FUNCTIONS: self._build_functions,\n            GCMAlgorithmNames.EDGE_NAMES: self._edge_names,\n        }\n"),
+    U("factory-dict-dispatch", GFA, "        if type == GCMAlgorithmTypes.FAST:\n            return GCMAlgorithmFast(params)\n        elif type == GCMAlgorithmTypes.NETWORK:\n            return GCMAlgorithmNetwork(params)\n        elif type == GCMAlgorithmTypes.MOTIFS:\n            return GCMAlgorithmCustomMotifs(params)\n        else:\n            raise (\"Error: unknown algorithm in GCMAlgorithmFactory: resolve_algorithm\")",
+      "        table = {GCMAlgorithmTypes.FAST: GCMAlgorithmFast, GCMAlgorithmTypes.NETWORK: GCMAlgorithmNetwork, GCMAlgorithmTypes.MOTIFS: GCMAlgorithmCustomMotifs}\n        return table[type](params)"),
+]
+
+# ------------------------------------------------------------------------------------------- C02
+EN = "gcmpy/network/edge_list_to_network.py"
+VARIANTS["C02"] = [
+    M("fast-id-short", GF, "EdgeList.motif_id.extend([id] * len(es))", "EdgeList.motif_id.extend([id] * (len(es) - 1))", "C02.1"),
+    M("fast-names-by-vertices", GF, "[self._edge_names[k]] * len(es)", "[self._edge_names[k]] * len(vertices)", "C02.1"),
+    M("fast-id-per-edge", GF, "                id = next(gen)\n                EdgeList.motif_id.extend([id] * len(es))",
+      "                EdgeList.motif_id.extend([next(gen) for _ in es])", "C02.3"),
+    M("fast-gen-in-loop", GF, "        gen = self.infinite_sequence()\n\n        # for each topology list ...\n        for k, k_list in enumerate(stubs):\n",
+      "        # for each topology list ...\n        for k, k_list in enumerate(stubs):\n            gen = self.infinite_sequence()\n", "C02.3"),
+    M("fast-id-outside-chunk-loop", GF, "            for vertices in grouper(k_list, self._motif_sizes[k]):", "            id = next(gen)\n            for vertices in grouper(k_list, self._motif_sizes[k]):", "C02.3"),
+    M("fast-id-constant", GF, "EdgeList.motif_id.extend([id] * len(es))", "EdgeList.motif_id.extend([k] * len(es))", "C02.3"),
+    M("counter-stuck", GA, "            num += 1\n", "            num += 0\n", "C02.4"),
+    M("counter-wraps", GA, "            num += 1\n", "            num = (num + 1) % 1000\n", "C02.4"),
+    M("counter-not-advanced", GA, "            yield num\n            num += 1\n", "            yield num\n", "C02.4"),
+    M("revert-D1", GC, "                id = next(gen)\n\n                if len(es) == 2 and not isinstance(es[0], (tuple, list)):\n                    # if 2-clique tuple annoyingly unpacks ... so re-pack it\n                    EdgeList.edge_list.extend([es])\n                    EdgeList.topologies.extend([self._edge_names[j]()])\n                    EdgeList.motif_id.extend([id])\n\n                else:\n                    EdgeList.edge_list.extend(es)\n                    EdgeList.topologies.extend(self._edge_names[j]())\n                    EdgeList.motif_id.extend([id] * len(es))",
+      "                id = next(gen)\n                EdgeList.motif_id.extend([id] * len(es))\n\n                if len(es) == 2 and not isinstance(es[0], (tuple, list)):\n                    EdgeList.edge_list.extend([es])\n                    EdgeList.topologies.extend([self._edge_names[j]()])\n\n                else:\n                    EdgeList.edge_list.extend(es)\n                    EdgeList.topologies.extend(self._edge_names[j]())", "C02.1"),
+    M("revert-D2", GC, "if len(es) == 2 and not isinstance(es[0], (tuple, list)):", "if len(es) == 2:", "C02.2"),
+    M("custom-repack-no-id", GC, "                    EdgeList.motif_id.extend([id])\n", "", "C02.1"),
+    M("custom-literal-name", GC, "EdgeList.topologies.extend([self._edge_names[j]()])", "EdgeList.topologies.extend([\"2-clique\"])", "C02.5"),
+    M("outside-column-write", GN, "        return EdgeListToNetwork.convert(CEdgeList)", "        CEdgeList.motif_id.append(0)\n        return EdgeListToNetwork.convert(CEdgeList)", "C02.1"),
+    M("converter-keys-by-name", EN, "            topologies[e] = name\n            motif_ids[e] = motif_id", "            topologies[e] = name\n            motif_ids[name] = motif_id", "C02.6"),
+    R("fast-n-temp", GF, "                EdgeList.edge_list.extend(es)\n\n                # add the edge names to a list\n                EdgeList.topologies.extend([self._edge_names[k]] * len(es))",
+      "                n_es = len(es)\n                EdgeList.edge_list.extend(es)\n                EdgeList.topologies.extend([self._edge_names[k]] * n_es)"),
+    R("fast-order-permuted", GF, "                EdgeList.edge_list.extend(es)\n\n                # add the edge names to a list\n                EdgeList.topologies.extend([self._edge_names[k]] * len(es))\n\n                # record the motif id\n                id = next(gen)\n                EdgeList.motif_id.extend([id] * len(es))",
+      "                id = next(gen)\n                EdgeList.motif_id.extend([id] * len(es))\n                EdgeList.topologies.extend(len(es) * [self._edge_names[k]])\n                EdgeList.edge_list.extend(es)"),
+    R("counter-plain-assign", GA, "            num += 1\n", "            num = num + 1\n"),
+    R("custom-int-kind-test", GC, "if len(es) == 2 and not isinstance(es[0], (tuple, list)):", "if len(es) == 2 and isinstance(es[0], int):"),
+]
+
+# ------------------------------------------------------------------------------------------- C04
+NE = "gcmpy/network/network_to_edge_list.py"
+VARIANTS["C04"] = [
+    M("revert-D3", EN, "        model.G.add_nodes_from(range(len(edgelist.joint_degrees)))\n", "", "C04.1"),
+    M("nodes-one-short", EN, "range(len(edgelist.joint_degrees))", "range(len(edgelist.joint_degrees) - 1)", "C04.1"),
+    M("nodes-after-annotation", EN, "        model.G.add_nodes_from(range(len(edgelist.joint_degrees)))\n        model.G.add_edges_from(edgelist.edge_list)\n",
+      "        model.G.add_edges_from(edgelist.edge_list)\n", "C04.1"),
+    M("writer-swapped", EN, "        nx.set_edge_attributes(model.G, topologies, NetworkNames.TOPOLOGY)\n        nx.set_edge_attributes(model.G, motif_ids, NetworkNames.MOTIF_IDS)",
+      "        nx.set_edge_attributes(model.G, topologies, NetworkNames.MOTIF_IDS)\n        nx.set_edge_attributes(model.G, motif_ids, NetworkNames.TOPOLOGY)", "C04.2"),
+    ME("both-swapped", [(EN, "        nx.set_edge_attributes(model.G, topologies, NetworkNames.TOPOLOGY)\n        nx.set_edge_attributes(model.G, motif_ids, NetworkNames.MOTIF_IDS)",
+      "        nx.set_edge_attributes(model.G, topologies, NetworkNames.MOTIF_IDS)\n        nx.set_edge_attributes(model.G, motif_ids, NetworkNames.TOPOLOGY)"),
+      (NE, "network.G.edges[e][NetworkNames.TOPOLOGY] for e", "network.G.edges[e][NetworkNames.MOTIF_IDS] for e"),
+      (NE, "network.G.edges[e][NetworkNames.MOTIF_IDS] for e in network.G.edges()\n        ]\n        return", "network.G.edges[e][NetworkNames.TOPOLOGY] for e in network.G.edges()\n        ]\n        return")], "C04.2"),
+    M("writer-zip-order", EN, "for e, name, motif_id in zip(", "for e, motif_id, name in zip(", "C04.2"),
+    M("writer-enumerate-from-1", EN, "for n, jd in enumerate(edgelist.joint_degrees):", "for n, jd in enumerate(edgelist.joint_degrees, 1):", "C04.2"),
+    M("reader-range-short", NE, "for n in range(len(network.G.nodes()))", "for n in range(len(network.G.nodes()) - 1)", "C04.6"),
+    M("reader-range-from-1", NE, "for n in range(len(network.G.nodes()))", "for n in range(1, len(network.G.nodes()))", "C04.6"),
+    M("reader-one-sorted", NE, "network.G.edges[e][NetworkNames.TOPOLOGY] for e in network.G.edges()", "network.G.edges[e][NetworkNames.TOPOLOGY] for e in sorted(network.G.edges())", "C04.4"),
+    M("reader-swapped-key", NE, "network.G.edges[e][NetworkNames.TOPOLOGY] for e", "network.G.edges[e][NetworkNames.MOTIF_IDS] for e", "C04.3"),
+    M("edges-sliced", EN, "model.G.add_edges_from(edgelist.edge_list)", "model.G.add_edges_from(edgelist.edge_list[1:])", "C04.5"),
+    M("literal-key", EN, "nx.set_node_attributes(model.G, joint_degrees, NetworkNames.JOINT_DEGREE)", "nx.set_node_attributes(model.G, joint_degrees, \"joint_degree\")", "C04.2"),
+    R("dict-comprehension", EN, "        joint_degrees = {}\n        for n, jd in enumerate(edgelist.joint_degrees):\n            joint_degrees[n] = jd\n",
+      "        joint_degrees = {n: jd for n, jd in enumerate(edgelist.joint_degrees)}\n"),
+    R("node-loop", EN, "        model.G.add_nodes_from(range(len(edgelist.joint_degrees)))\n", "        for v in range(len(edgelist.joint_degrees)):\n            model.G.add_node(v)\n"),
+    R("order-call", NE, "for n in range(len(network.G.nodes()))", "for n in range(network.G.order())"),
+    R("dict-zip", EN, "        nx.set_edge_attributes(model.G, topologies, NetworkNames.TOPOLOGY)", "        nx.set_edge_attributes(model.G, dict(zip(edgelist.edge_list, edgelist.topologies)), NetworkNames.TOPOLOGY)"),
+]
